@@ -324,7 +324,10 @@ class ParseAPI(object):
         if len(data) != 32:
             return None
         se = from_bytes_32(data)
-        return self._network.keys.private(se, is_compressed=is_compressed)
+        try:
+            return self._network.keys.private(se, is_compressed=is_compressed)
+        except self._network.keys.InvalidSecretExponentError:
+            return None
 
     def secret_exponent(self, s: str) -> Any:
         """
